@@ -1,3 +1,3 @@
 From Coq Require Import ExtrOcamlBasic.
-From ChibiV Require Import Common.ExtractBase C13.Res.
-Extraction "model.ml" ext_base rtrace rw0 rstep rrun observe.
+From ChibiV Require Import Common.ExtractBase C13.Res C13.Sig C13.Tab.
+Extraction "model.ml" ext_base rtrace rw0 rstep rrun observe strace sw0 sstep srun ttrace tw0 tstep trun ctx_closed ctxs_disjoint.
